@@ -22,6 +22,10 @@ SCENARIOS = [
     ('sdisc-vs-reconnect-vs-loss', True, ['0'], ['sdisc', 'loss']),
     ('connect-two-ns-vs-loss', False, ['0', '0/x,'], ['loss']),
     ('event-cb-vs-loss', True, ['21["ev",1]', '1'], ['loss']),
+    # the task that tears the transport down is cancelled (server shutdown,
+    # request task cancelled by the web server) while a disconnect handler
+    # is suspended; the client is on two namespaces
+    ('two-ns-loss-cancelled', True, [], ['loss', 'cancel-loss']),
 ]
 OUTCOMES = ['accept', 'false']
 
@@ -65,6 +69,10 @@ def scenario_for(sc, always_connect, outcome, suspend_sends,
             w.recv_packet(t, 0, '/')
             sid0 = w.sid_of(t, '/')
             w.run(sio.emit, 'q', 1, to=sid0, callback=lambda *a: None)
+            if name.startswith('two-ns'):
+                w.recv_packet(t, 0, '/x')
+                w.run(sio.emit, 'q', 2, to=w.sid_of(t, '/x'),
+                      namespace='/x', callback=lambda *a: None)
         w.drain_all()
         state['outcome'] = outcome
         if suspend_sends:
@@ -93,10 +101,14 @@ def scenario_for(sc, always_connect, outcome, suspend_sends,
                 await loop.point('arrive')
                 loop.create_task(receive(f))
 
+        tasks = {}
+
         async def actor(kind):
             await loop.point('start:' + kind)
             try:
-                if kind == 'loss':
+                if kind == 'cancel-loss':
+                    tasks['loss'].cancel()
+                elif kind == 'loss':
                     lost['v'] = True
                     await sock.close(wait=False, abort=True,
                                      reason='transport close')
@@ -107,7 +119,7 @@ def scenario_for(sc, always_connect, outcome, suspend_sends,
                 pass
         loop.create_task(stream())
         for a in actors:
-            loop.create_task(actor(a))
+            tasks[a] = loop.create_task(actor(a))
 
         def finish(hit):
             parked = [lb for lb, f in loop.parked if not f.done()]
